@@ -10,7 +10,7 @@ import ast
 import itertools
 from typing import Any, Dict, List, Optional, Tuple
 
-from ..model import strip_opt, ClassInfo, iter_own_nodes
+from ..model import strip_opt, ClassInfo, iter_own_nodes, FuncInfo
 from ..template import Evaluator, TStr, Lit, Hole, AltS, RepS, FqnS, CommentS, OpaqueS, Cond, Sym, TRUE, FALSE
 from ..cxxlex import lex, tok_text, toks_text
 from ..flow import always_raises
@@ -427,6 +427,32 @@ def check(ctx):
     run.floor('C20.balanced', 12)
 
 
+def _headerless_block(ctx, fn: FuncInfo, e: ast.expr, depth: int = 0) -> bool:
+    """`e` is a text block that was constructed without a header on every path: `TextBlock(x)` / `TB(x)` (also after
+    `.indent()` / `.trim()`), a local bound once to such a construction, or the call of a package function all of whose returns
+    are that."""
+    prog, cg = ctx.prog, ctx.cg
+    if depth > 3:
+        return False
+    while isinstance(e, ast.Call) and isinstance(e.func, ast.Attribute) and e.func.attr in ('indent', 'trim', 'set_indentor'):
+        e = e.func.value
+    if isinstance(e, ast.Name):
+        d = cg.env(fn).single_def(e.id)
+        return d is not None and _headerless_block(ctx, fn, d, depth + 1)
+    if not isinstance(e, ast.Call):
+        return False
+    tb = prog.cls('text_gen', 'TextBlock')
+    sym = prog.resolve_expr_symbol(fn.module, e.func) if isinstance(e.func, (ast.Name, ast.Attribute)) else None
+    if sym is tb or (isinstance(sym, tuple) and sym[0] == 'const' and isinstance(sym[1], ast.Name) and sym[1].id == 'TextBlock'):
+        return len(e.args) <= 1 and not any(k.arg == 'header' or k.arg is None for k in e.keywords)
+    callees = [g for g in cg.env(fn).resolve_call(e) if isinstance(g, FuncInfo)]
+    if len(callees) != 1 or len(cg.env(fn).resolve_call(e)) != 1:
+        return False
+    g = callees[0]
+    rets = [r.value for r in iter_own_nodes(g.node) if isinstance(r, ast.Return)]
+    return bool(rets) and all(r is not None and _headerless_block(ctx, g, r, depth + 1) for r in rets)
+
+
 def _whole_block(ctx):
     """C20.whole-block: a building block embeds the text blocks it was given as blocks.  Reading `<TextBlock>.lines` for
     anything but an emptiness test takes the content lines only - the header of the block (TextBlock(content, header=...))
@@ -461,6 +487,11 @@ def _whole_block(ctx):
             if isinstance(one, ast.Subscript) and one.value is n and not isinstance(one.slice, ast.Slice) and isinstance(one.ctx, ast.Load):
                 # one line is looked at (a title, a name): nothing is embedded in place of the block
                 run.add('C20.whole-block', fn.module.name, fn.qualname, n, True, f'`{ast.unparse(one)}` reads a single line of the block')
+                continue
+            if not is_test and _headerless_block(ctx, fn, n.value):
+                run.add('C20.whole-block', fn.module.name, fn.qualname, n, True,
+                        f'`{ast.unparse(n)[:60]}`: the block is built right there (by a function of the package) without a header - its lines '
+                        f'are all of it')
                 continue
             run.add('C20.whole-block', fn.module.name, fn.qualname, n, is_test,
                     f'`{ast.unparse(n)}` is only tested for emptiness' if is_test else
